@@ -125,6 +125,14 @@ func (g *Gen) lemma(ct *Contract) {
 		o := g.oblige("lemma", e.Label, clauseProps(ct, e), nil, "true", t, e.Src, token.NoPos)
 		o.Name = strings.TrimPrefix(ct.PkgPath, modPath+"/") + "." + ct.Key + "#lemma:" + e.Label
 		o.Func = strings.TrimPrefix(ct.PkgPath, modPath+"/") + "." + ct.Key
+		o.Ground = e.Ground
+		g.outsideKnown(o, env, nil)
+		for _, x := range g.obls {
+			if x.Name == o.Name+"!outside_known" {
+				x.Ground = e.Ground
+				x.Func = o.Func
+			}
+		}
 	}
 	for _, e := range ct.Canary {
 		t := env.trBool(e.Expr)
@@ -178,6 +186,13 @@ func (g *Gen) function(fn *ssa.Function, ct *Contract) {
 		}
 		for _, l := range ct.Lets {
 			e.lets[l.Name] = l.Expr
+		}
+		// ghost variables: arbitrary constants, so every clause that mentions them holds for all their values
+		for _, v := range ct.Vars {
+			g.ensureSortNames(v.Sort)
+			n := "ghost_" + v.Name
+			g.declare(n, v.Sort)
+			e.vars[v.Name] = Val{Sort: v.Sort, Term: n}
 		}
 	}
 	bindTop(env)
